@@ -79,3 +79,12 @@ package surveyor
 //@   ensures option == protocol.OptionWriteQLen ==> isnil(result1) && result0 == iface(s.sendQLen)
 //@
 // ---- end generated option contracts ----
+//@
+//@ func (*socket).OpenContext
+//@   ghost cl = s.closed at call:Lock#1
+//@   ensures cl ==> isnil(result0) && result1 == protocol.ErrClosed
+//@   ensures !cl ==> isnil(result1) && cast("*context", result0).s == s && has(s.ctxs, cast("*context", result0)) && !cast("*context", result0).closed
+//@   ensures !cl ==> cast("*context", result0).survExpire == s.master.survExpire
+//@   ensures !cl ==> cast("*context", result0).recvExpire == s.master.recvExpire
+//@   ensures !cl ==> cast("*context", result0).recvQLen == s.master.recvQLen
+//@   ensures !cl ==> cast("*context", result0).surv == nil
